@@ -81,7 +81,7 @@ func (op *rop) tok() string {
 		return "set " + r + " " + strconv.Itoa(op.f) + " " + op.argTok()
 	case "setunk":
 		return "setunk " + r + " " + hx(op.unk)
-	case "lget", "ltrunc":
+	case "lget", "ltrunc", "rstop", "mrstop":
 		return op.code + " " + r + " " + strconv.FormatInt(op.n, 10)
 	case "lset":
 		return "lset " + r + " " + strconv.FormatInt(op.n, 10) + " " + op.argTok()
@@ -288,10 +288,11 @@ func (s *rsession) apply(x *rimpl, op *rop) (h interface{}, out *outv) {
 		switch op.code {
 		case "rstop":
 			// Range must return as soon as the callback returns false: count the callbacks made
+			// (the callback returns false at its op.n-th call: exactly min(op.n, populated fields) callbacks must be made)
 			n := 0
 			m.Range(func(fd protoreflect.FieldDescriptor, v protoreflect.Value) bool {
 				n++
-				return false
+				return int64(n) < op.n
 			})
 			return nil, &outv{k: '#', fidx: n}
 		case "range":
@@ -398,7 +399,7 @@ func (s *rsession) apply(x *rimpl, op *rop) (h interface{}, out *outv) {
 			n := 0
 			mp.Range(func(k protoreflect.MapKey, v protoreflect.Value) bool {
 				n++
-				return false
+				return int64(n) < op.n
 			})
 			return nil, &outv{k: '#', fidx: n}
 		case "mrange":
